@@ -517,8 +517,8 @@ CHECKS["C12"] = Spec(
 def _bs_data(b):
     n = [0, 1, 7, 40, 300, 4096, 13, 64][b % 8]
     d = bytes(((b * 31 + i * 7) & 255) for i in range(n))
-    if b % 4 == 2 and n < 4:
-        d += bytes([1, 2, 3, 4])
+    if b % 4 == 2:
+        d = bytes([9, 9, 9, 9, b]) + d
     return d
 
 def _bs_check(ctx):
@@ -535,7 +535,7 @@ def _bs_check(ctx):
     if ctx.get("replay") and ctx["replay"].endswith(".bsseq"):
         seqs, n = [l.strip() for l in open(ctx["replay"]) if l.strip() and not l.startswith("#")], 0
     def var(b=None):
-        b = rng.randint(0, 11) if b is None else b
+        b = rng.choice((0, 1, 2, 2, 3, 4, 5, 6, 6, 7, 8, 9, 10, 10, 11, 14, 18)) if b is None else b
         return "%d:%d:%s" % (b, rng.randint(0, 1), rng.choice(("raw", "dagpb", "dagcbor")))
     for _ in range(n):
         ops = []
